@@ -184,6 +184,9 @@ def compare(src, m, facts):
             if pos in a and leaf is not None and leaf.parent is not None and leaf.parent.type == 'argument' \
                     and len(leaf.parent.children) > 1 and leaf.parent.children[1] == ':=':
                 tag = 'walrus-in-call-argument'
+            elif pos in a and leaf is not None and leaf.parent is not None and leaf.get_next_sibling() == ':=':
+                # one root cause per node type that holds an unparenthesised assignment expression
+                tag = 'walrus-in-' + leaf.parent.type
             line = src.split('\n')[pos[0] - 1]
             f = ('%s:%s' % (side, tag), 'name %r at %r: CPython binds=%r parso is_definition=%r | %s'
                  % (leaf, pos, pos in a, pos in p, short(line, 100)))
